@@ -31,14 +31,19 @@ manager itself causes (`_configure` removes the event file on failure).  They ar
 delivered late (other operations happen in between) but never out of order.
 
 Container names come from the real `appcfg.eventfile_unique_name`.  Only the
-`os.stat` it sees is virtualised: inode and ctime are a pure function of
-(salt, generation) where the generation number travels in the cache file itself.
-A re-created or rewritten cache file therefore always has a new identity, as on
-a real node (a probe with the real os.stat on /tmp gave 200 distinct names for
-200 delete+re-create pairs), and the names - hence the iteration order of the
-sets in `_synchronize` - are the same in every run of the same case.  The salt
-makes that order a generated dimension (it replaces the per-shard
-PYTHONHASHSEED of DESIGN.md, which ./check pins to 0).
+`os.stat` it sees is virtualised, by a model file system whose state travels in
+the case: ['put', i, ok, reuse, dt_us] creates the cache file dt_us microseconds
+after the previous one, on the inode freed last if `reuse` (ext4 hands freed
+inode numbers out again) else on the next new one; both numbers are stored in the
+cache file.  Names are therefore the same in every run of a case, the salt (first
+inode number) varies them and with them the iteration order of the sets in
+`_synchronize`.  gen_uniqueid keeps the inode and the low 13 bits of the ctime in
+microseconds, so on ANY tree one inode-reusing re-creation in 8192 gets the name
+of an earlier generation; the model steps over exactly those ctimes (+17 us,
+counted) - that weakness is not claimed.  Containers are attributed to the
+generation (harness counter) whose cache file they were first configured from,
+never to a name: two generations that share a name show up as "running
+container is not the one made from the current cache entry".
 """
 
 import json
@@ -117,6 +122,15 @@ class NodeSim(object):
         self.active = False
         self.queue = []          # [(kind, name)] kind in 'C', 'D', 'M'
         self.next_gen = 1
+        # the file system under cache/: inode numbers are handed out in
+        # sequence and REUSED (most recently freed first) when the case says
+        # so; ctimes advance by a generated number of microseconds per put
+        self.next_ino = 700001 + (self.salt * 7919) % 900001
+        self.free_inos = []
+        self.ino_of = {}         # instance -> inode of its current cache file
+        self.clock_us = 0
+        self.idents = {}         # instance -> [(gen, ino, ctime_us, name)]
+        self.configured_gens = set()   # (instance, gen) configure was run for
         # container name -> (instance, generation), filled by the configure
         # stand-in (not by parsing names)
         self.registry = {}
@@ -128,6 +142,7 @@ class NodeSim(object):
         self.two_generations = False
         self.sync_with_cleanup = False
         self.replaced_backlog = False
+        self.name_collision = False
         self.late_created_flagless = False
         self.n_syncs = 0
         self._saved = []
@@ -173,10 +188,9 @@ class NodeSim(object):
             return json.load(fh)
 
     def virtual_stat(self, path):
-        gen = self._read_manifest(path)['gen']
-        ino = 700001 + (self.salt * 7919 + gen * 104729) % 900001
-        ctime = 1600000000.0 + self.salt * 0.000613 + gen * 1.000457
-        return _VirtualStat(ino, ctime)
+        manifest = self._read_manifest(path)
+        return _VirtualStat(manifest['ino'],
+                            1600000000.0 + manifest['ctime_us'] / 1e6)
 
     # -- stand-in for treadmill.appcfg.configure.configure ----------------------
 
@@ -192,13 +206,22 @@ class NodeSim(object):
             raise Exception('cannot configure %s' % instance)
         uniq = appcfg.eventfile_unique_name(event)
         container_dir = os.path.join(tm_env.apps_dir, uniq)
+        existed = os.path.isdir(container_dir)
         fs.mkdir_safe(os.path.join(container_dir, 'data'))
         key = (instance, manifest['gen'])
-        known = self.registry.setdefault(uniq, key)
-        if known != key:
-            raise HarnessError('container name %s reused: %r / %r' %
-                               (uniq, known, key))
-        self.by_gen[key] = uniq
+        self.configured_gens.add(key)
+        known = self.registry.get(uniq)
+        if known is None or not existed:
+            # a new container: it belongs to the generation it is made from
+            self.registry[uniq] = key
+            self.by_gen[key] = uniq
+        elif known == key:
+            self.by_gen[key] = uniq
+        else:
+            # configure ran on the directory of ANOTHER generation that has
+            # the same name: the container stays what it was made from, the
+            # new generation has no container of its own
+            self.stats.count('configure_on_other_generations_container')
         self.stats.count('configured')
         return container_dir
 
@@ -394,6 +417,24 @@ class NodeSim(object):
                                 self._describe()))
         self.stats.count('quiescent_checks')
 
+    def _check_after_create(self, inst, configured_before):
+        """An active manager handled the last queued event of the instance, a
+        'created', for a cache entry that is still there, can be configured and was never configured before: the
+        instance runs the container made from that entry."""
+        entry = self.cache().get(inst)
+        if entry is None or not entry['ok'] or \
+                (inst, entry['gen']) in configured_before:
+            return
+        cont = self.links('running').get(inst)
+        if cont is None or self.registry.get(cont) != (inst, entry['gen']):
+            raise Violation(
+                'c13.create.not-configured',
+                'the manager handled the created event of %s generation %d '
+                '(never configured before, configurable) and running/%s -> '
+                '%s; %s' % (inst, entry['gen'], inst,
+                            self._tag(cont) if cont else None,
+                            self._describe()))
+
     def _check_after_delete(self, inst, before):
         """An active manager handled 'deleted' and the entry is still gone."""
         cont = before.get(inst)
@@ -415,7 +456,27 @@ class NodeSim(object):
             return
         self.queue.append((kind, name))
 
-    def op_put(self, idx, okay):
+    def _new_identity(self, inst, reuse, dt_us):
+        """(inode, ctime in us) of a cache file created now."""
+        self.clock_us += max(1, int(dt_us))
+        if reuse and self.free_inos:
+            ino = self.free_inos.pop()
+            self.stats.count('inode_reused')
+        else:
+            ino = self.next_ino
+            self.next_ino += 1
+        # gen_uniqueid keeps the inode and the low 13 bits of the ctime in
+        # microseconds: with a reused inode, one re-creation in 8192 gets the
+        # name of an earlier generation on ANY tree.  That weakness is not
+        # claimed here: such a ctime is moved on by a few microseconds.
+        while any(old_ino == ino and
+                  (self.clock_us - old_us + 2) % 8192 <= 4
+                  for _g, old_ino, old_us, _n in self.idents.get(inst, [])):
+            self.clock_us += 17
+            self.stats.count('ctime_nudged_off_8192us_collision')
+        return ino, self.clock_us
+
+    def op_put(self, idx, okay, reuse=0, dt_us=1000457):
         inst = INSTANCES[idx % len(INSTANCES)]
         path = self._p('cache', inst)
         if os.path.exists(path):
@@ -427,11 +488,25 @@ class NodeSim(object):
             self.stats.count('replaced_with_delete_queued')
             if self.active and self.links('running').get(inst):
                 self.replaced_backlog = True
+        ino, ctime_us = self._new_identity(inst, reuse, dt_us)
         manifest = {'gen': self.next_gen, 'ok': bool(okay), 'task':
-                    inst.split('#')[1]}
+                    inst.split('#')[1], 'ino': ino, 'ctime_us': ctime_us}
         self.next_gen += 1
         fs.write_safe(path, lambda f: json.dump(manifest, f),
                       prefix='.%s-' % inst, mode='w', permission=0o644)
+        if inst in self.ino_of:       # rewrite: the old file is gone now
+            self.free_inos.append(self.ino_of[inst])
+        self.ino_of[inst] = ino
+        # statistics only: does this generation get the name of an earlier one?
+        name = appcfg.eventfile_unique_name(path)
+        earlier = self.idents.setdefault(inst, [])
+        if any(name == old for _g, _i, _u, old in earlier):
+            self.stats.count('name_collisions')
+            self.name_collision = True
+        if any(old_ino == ino and old_us // 1000000 == ctime_us // 1000000
+               for _g, old_ino, old_us, _n in earlier):
+            self.stats.count('same_inode_same_second')
+        earlier.append((manifest['gen'], ino, ctime_us, name))
         self._enqueue('C', inst)
         return True
 
@@ -441,6 +516,7 @@ class NodeSim(object):
         if not os.path.exists(path):
             return False
         os.unlink(path)
+        self.free_inos.append(self.ino_of.pop(inst))
         self._enqueue('D', inst)
         return True
 
@@ -493,10 +569,13 @@ class NodeSim(object):
                 self.stats.count('late_created_event_on_dead_container')
                 if cur not in self.flagged:
                     self.late_created_flagless = True
+        configured_before = set(self.configured_gens)
         handler(path)
         self.stats.count('event:' + kind)
         # what the manager itself removed from the cache is seen by inotify
         for gone in sorted(cache_before - set(os.listdir(self._p('cache')))):
+            if gone in self.ino_of:
+                self.free_inos.append(self.ino_of.pop(gone))
             self._enqueue('D', gone)
         ctx = 'sync' if synced else {'C': 'created-event',
                                      'D': 'deleted-event',
@@ -512,6 +591,10 @@ class NodeSim(object):
             self._check_after_sync(handed_before)
         elif kind == 'D' and active_before and name != READY:
             self._check_after_delete(name, running_before)
+        elif kind == 'C' and active_before and name != READY and \
+                not any(queued == name for _k, queued in self.queue):
+            # (with further events of the instance queued this one is stale)
+            self._check_after_create(name, configured_before)
 
     def _flag(self, cont, kind):
         if kind in ('pid1', 'killed'):
@@ -635,6 +718,8 @@ def run_case(case, stats):
             stats.count('class:sync-while-cleanup-outstanding')
         if sim.late_created_flagless:
             stats.count('class:late-created-event-on-flagless-dead-container')
+        if sim.name_collision:
+            stats.count('class:two-generations-with-one-container-name')
         if sim.replaced_backlog:
             stats.count('class:replaced-while-running-delete-still-queued')
         if sim.n_syncs >= 2:
